@@ -76,7 +76,35 @@ def make_q0(rng, m):
     return kind, [[rng.randint(-8, 8) for _ in range(K)] for _ in range(N)]
 
 
+PERT = 2.0 ** -40          # near-tie family: some rewards are R + d * 2^-40, d in {-1, 0, 1}
+
+
+def make_near_tie_case(rng, i):
+    """Near-tie family: all model rewards equal one integer, the real MDP pays R + d * 2^-40 (d per transition), so
+    actions of a visited state end up with Q-values that differ by a relative gap far below 1e-9 (invisible at the
+    resolution 1/65536, visible to ==).  Step sizes 1 and 1/2, heavy exploration, several episodes, all learners."""
+    f = FAMS[i % 4]                                   # PD = 2, gamma in {1/2, 3/4, 9/10, 1}
+    K = rng.choice([2, 2, 3])
+    c = rng.choice([1, 1, 2, -1])
+    m = gen.rand_mdp(rng, n_na=rng.choice([1, 2, 2, 3]), n_abs=1, K=K, PD=f["PD"], GN=f["GN"], GD=f["GD"],
+                     rewards=(c,), ID=2, force_progress=True, init_on_abs=0.0, uniform_actions=rng.random() < 0.6)
+    N = m["N"]
+    pert = [[[rng.choice([-1, 0, 0, 1]) for _ in range(N)] for _ in range(K)] for _ in range(N)]
+    AN, AD = rng.choice([(1, 1), (1, 1), (1, 2)])
+    EN, ED = rng.choice([(1, 2), (1, 1)])
+    v = rng.choice([0, 0, 4])
+    cfg = dict(alg=ALGS[(i // 5) % 4], AN=AN, AD=AD, EN=EN, ED=ED, temp=0.0, q0kind="const",
+               q0=[[v] * K for _ in range(N)], episodes=rng.randint(4, 8), seed=rng.randrange(10 ** 6),
+               gseed=rng.randrange(10 ** 6), intq=rng.random() < 0.5)
+    rep = dict(REPS[rng.randrange(len(REPS))])
+    if rep["rep"] == "matrices" and not rep["explicit_list"] and not gen.ghost_closed(m):
+        rep["explicit_list"] = True
+    return {"m": m, "cfg": cfg, "rep": rep, "pert": pert}
+
+
 def make_case(rng, i):
+    if i % 5 == 4:
+        return make_near_tie_case(rng, i)
     f = FAMS[i % len(FAMS)]
     n_na = rng.choice([1, 2, 2, 3, 3, 4])
     n_abs = rng.choice([1, 1, 2])
@@ -153,6 +181,13 @@ def run_real(case, max_steps=MAXSTEPS):
     m, cfg, rep = case["m"], case["cfg"], case["rep"]
     N, K = m["N"], m["K"]
     b = build.build_mdp(m, rng=random.Random(digest(case["m"])), **rep)
+    if case.get("pert"):
+        # near-tie family: the real MDP pays R + d * 2^-40; the model keeps the integer R (spec: "perturbed rewards")
+        pert, base_reward = case["pert"], b.mdp.reward
+
+        def reward(s, a, ns):
+            return base_reward(s, a, ns) + pert[b.slabel.index(s)][b.alabel.index(a)][b.slabel.index(ns)] * PERT
+        b.mdp.reward = reward
 
     def sidx(lab):
         try:
@@ -265,7 +300,8 @@ def run_real(case, max_steps=MAXSTEPS):
                q0=q0, episodes=cfg["episodes"], seedbug=0, depth=0)
     zero = [[0] * K for _ in range(N)]
     rec.update(ev=events, truncated=0, rhas=[0] * N, rhasa=[list(r) for r in zero], rval=[list(r) for r in zero],
-               rank=[list(r) for r in zero], pol=[list(r) for r in zero], polq=[0] * N, extra_rows=0)
+               rank=[list(r) for r in zero], pol=[list(r) for r in zero], polq=[0] * N, extra_rows=0,
+               subres=0, pert=1 if case.get("pert") else 0)
     try:
         res = learner.train_on(b.mdp)
     except _Stop:
@@ -291,9 +327,11 @@ def run_real(case, max_steps=MAXSTEPS):
             rec["rhasa"][s - 1][a - 1] = 1
             rec["rval"][s - 1][a - 1] = quant(v)
             vals[a] = float(v)
-        order = sorted(set(vals.values()))
+        order = sorted(set(vals.values()))              # dense ranks by exact float comparison (the code uses ==)
         for a, v in vals.items():
             rec["rank"][s - 1][a - 1] = order.index(v) + 1
+        if len(order) > len({quant(v) for v in order}):
+            rec["subres"] += 1                          # distinct floats that coincide at the resolution 1/65536
     # ---- returned policy
     listed = gen.reach(m)
     for s in range(N):
@@ -451,6 +489,9 @@ def judge(ctx, cases, recs):
             if nsteps >= 3 and boot and rec["AN"] > 0:
                 ctx.nontrivial(digest([c["m"], c["cfg"]]))
         ctx.count(f"runs_{alg}")
+        if rec.get("pert"):
+            ctx.count("near_tie_family_runs")
+        ctx.count("returned_rows_with_gap_below_resolution", rec.get("subres", 0))
         ctx.count("events", len(rec["ev"]))
         if any(e["k"] == "start" and rec["abs"][e["s"] - 1] for e in rec["ev"] if e["s"] > 0):
             ctx.count("runs_with_absorbing_initial_state")
@@ -539,7 +580,9 @@ def run(ctx):
                 "state-dependent actions, gamma in {1/2,3/4,9/10,1}, PD in {2,4}, 30% with initial mass on an absorbing "
                 "state) x 4 learners x step size {0,.1,.25,.5,.75,1} x rand_choose {0,.1,.25,.5,1} x softmax_temp "
                 "{0,.5,2; expected SARSA also .02,.05,.2} x initial_q {int, float, callable table, callable by action} x episodes 1-5 x seed (incl. None) "
-                "x 7 representations; non-trivial = accepted trace with >= 3 updates, step size > 0, at least one "
+                "x 7 representations; every 5th run from the near-tie family (model rewards all equal, real rewards R + d*2^-40, step "
+                "size 1 or 1/2, rand_choose 1/2 or 1, 4-8 episodes) whose returned rows hold distinct floats closer than 1e-9 "
+                "relative: the policy clause is decided on exact float ranks; non-trivial = accepted trace with >= 3 updates, step size > 0, at least one "
                 "bootstrap from a non-absorbing next state")
     ctx.assumptions = [
         "the event listener's locals() and the returned q_values/policy are what the learner computed with",
@@ -550,6 +593,9 @@ def run(ctx):
         "normalisation and order-consistency of the softmax weights and the weighted rule; TRUSTED PYTHON: the weights "
         "themselves, exp((q-max)/tau)/Z computed by the recorder (math.exp) from the row the real table held before the "
         "update (not taken from msdm's SoftmaxDistribution); written entries are resynchronised with the logged ones",
+        "near-tie family: the model folds the unperturbed integer reward; the real fold differs by at most n*2^-40 "
+        "(= n*2^-24 units, < 1e-5 units for n <= 120) after n updates, absorbed by the 1/2 unit of slack every tolerance "
+        "has over its derived need; policy supports are compared with exact float ranks, no tolerance",
         "boundedness interval includes 0 (the fixed value of absorbing states); undiscounted: after n updates "
         "[min q0 + n min(r,0), max q0 + n max(r,0)]",
     ]
